@@ -2,6 +2,7 @@
 // lean/FcpptModel/Drv/C18.lean and prints the same canonical result lines.
 // Every loop over an implementation-produced range is capped (prints `overrun`).
 #include "common/vh.hpp"
+#include "common/route.hpp"
 
 #include <fcppt/cyclic_iterator.hpp>
 #include <fcppt/int_range_impl.hpp>
@@ -195,7 +196,27 @@ std::string ir_line(__int128 const b, __int128 const e)
   fcppt::int_range<Int> const made{fcppt::make_int_range(Int(static_cast<U>(b)), Int(static_cast<U>(e)))};
   if (!(direct.begin() == made.begin()) || direct.end() != made.end())
     return "ctor-mismatch";
-  return range_line<Int, U, Strong>(made, b, e);
+  // the range travels through a special member of int_range before it is looked at (a value: begin AND end must
+  // survive; common/route.hpp, notes/sweep.md); the route is a function of the bounds, the former value of an assignment
+  // target is a range with two other bounds
+  unsigned const route{static_cast<unsigned>(static_cast<unsigned long long>(b) * 31ULL + static_cast<unsigned long long>(e) * 7ULL + (Strong ? 3U : 0U))};
+  fcppt::int_range<Int> const routed{vh::sm::route(
+      route,
+      made,
+      [&made]
+      {
+        fcppt::int_range<Int> const c1(Int(static_cast<U>(1)), Int(static_cast<U>(2)));
+        if (c1.begin() != made.begin() && c1.end() != made.end())
+          return c1;
+        fcppt::int_range<Int> const c2(Int(static_cast<U>(3)), Int(static_cast<U>(5)));
+        if (c2.begin() != made.begin() && c2.end() != made.end())
+          return c2;
+        return fcppt::int_range<Int>(Int(static_cast<U>(6)), Int(static_cast<U>(9)));
+      })};
+  std::string mm{};
+  if (routed.begin() != made.begin() || routed.end() != made.end())
+    vh::sm::note_mismatch(mm, "int_range", vh::sm::route_name(route));
+  return range_line<Int, U, Strong>(routed, b, e) + mm;
 }
 
 // the operations of iterator::base on an input iterator used directly: It is int_iterator<Int> or enum_::iterator<E>,
